@@ -187,7 +187,7 @@ class _TableFormSection(object):
   `table_forms` property."""
 
   _section_name_prefix = "Table-Form"
-  _section_name_regex = re.compile("^{}:(.*)$".format(_section_name_prefix))
+  _section_name_regex = re.compile(r"^{}\s*:(.*)$".format(_section_name_prefix))
 
   def __init__(self, cfg_parser):
     self._cfg_parser = cfg_parser
@@ -363,9 +363,18 @@ class _VariablesInterpolation(configparser.ExtendedInterpolation):
 
 class _RawConfigParser(configparser.RawConfigParser):
 
+  # As configparser's, but blanks next to the brackets are not part of the section name: '[Pair ]' is '[Pair]'
+  SECTCRE = re.compile(r"\[\s*(?P<header>.*\S)\s*\]")
+
   def __init__(self):
     super(_RawConfigParser, self).__init__(dict_type = _ConfigParserDict, default_section = "__no_default_section__", interpolation = _VariablesInterpolation())
     self._sections = collections.OrderedDict()
+    # Section names are looked up as they are listed by sections(): were the proxies kept in a _ConfigParserDict,
+    # which removes whitespace from its keys, '[Table-Form:tab]' and '[Table-Form:t ab]' would share one proxy
+    # and the section read last would silently stand in for the other.
+    proxies = collections.OrderedDict()
+    proxies.update(self._proxies)
+    self._proxies = proxies
 
   def get(self, section, option, **kwargs):
     try:
